@@ -22,7 +22,8 @@ RULE = ("Through the public tools API on anisotropic dyadic meshes with masks: (
         "1..2 and either polarity with uniform rim; (emergent) emergent_magnetic_field on 3-d meshes; (angle) neighbouring_cell_angle "
         "in every direction and both units, max_neighbouring_cell_angle; (bps) count_bps on hedgehogs with the singularity off the cell "
         "centres and on random smooth textures, along every direction; (dtensor) demag_tensor and _demag_tensor_field_based; (dfield) "
-        "demag_field with integer tensors and with the real tensor; (refuse) wrong component / spatial dimension / direction / method. "
+        "demag_field with integer tensors and with the real tensor, on small padded grids also against the code-shaped model path (pad, "
+        "C11 fftn, products, C11 ifftn, crop over formal roots of unity, evaluated at exp(-2 pi i/n) by the harness); (refuse) wrong component / spatial dimension / direction / method. "
         "The model receives the inputs as the exact rationals they are and returns all algebraic intermediates (orientation with a 1e-30 "
         "square root, derivative stencils, dot / triple products, per-triangle invariants, clipped dot products, cumulative fluxes, "
         "symbolic Newell term lists, the cropped circular convolution); the harness applies atan2 / arccos / arcsinh / arctan / sqrt and "
@@ -46,13 +47,26 @@ UNPROVED = ["Berg-Luescher integrality for textures wrapping the sphere a whole 
             "(skyrmion textures of winding 1-2, both polarities, uniform rim)",
             "a single hedgehog is counted as exactly one Bloch point along every direction (numerical statement through round()): oracle only, "
             ">= 6 cells per axis, cell aspect ratio <= 2, singular point anywhere in the central cell block; smaller or more anisotropic meshes "
-            "do not resolve the singularity (observed: 4-5 cells or aspect 18:1 give 0)",
-            "topological charge unchanged by a quarter turn of the sample: oracle only (needs C12's index map composed with the edge stencils)",
-            "trace -1 at every frequency: PROVED in real space (N_xx+N_yy+N_zz = -delta with the real arcsinh/arctan/sqrt, theorem demag_trace); the "
-            "step to Fourier space (DFT of a delta at the central cell = pure phase, C11) and the convolution theorem "
-            "ifftn(fftn(T)*fftn(m)) = circular convolution are not composed formally: oracle (every k-cell) + correspondence",
-            "leaf hypotheses (sqrt homogeneous, acos range, Omega odd) are proved for the real functions (leaf_hypotheses_real, bl_angle_real) "
-            "but the density theorems are stated for abstract rational-valued leaves"]
+            "do not resolve the singularity (observed: 4-5 cells or aspect 18:1 give 0). PROVED about the count: invariance under a global proper "
+            "rotation (count_bps_rot_invariant), the reversal law tail-to-tail <-> head-to-head with the same total (count_bps_reversal), and the "
+            "counting stage: a rounded flux making one unit step is exactly one Bloch point of the right kind (single_step_is_one_bloch_point); "
+            "that a discretised hedgehog's rounded flux is such a step is the oracle's part",
+            "quarter turn of the sample: PROVED for both methods, every mask, anisotropic cells, open or periodic directions at the level of the "
+            "index map (charge_quarter_turn) and for Field.rotate90 as modelled in C12 for every odd k and either axis order (charge_rotate90) "
+            "with OPEN boundaries; for periodic meshes the link from Mesh.rotate90's bc string rewriting to the turned periodic flags is not "
+            "proved (oracle + correspondence only); half turns (even k) are not stated",
+            "trace -1 at every frequency: PROVED (demag_trace_fourier: C11's fftn of the model's real-space tensor has trace "
+            "-(pi_real/pi_float) * phase of modulus pi_real/|pi_float| in every k-cell). The convolution theorem is PROVED for C11's DFT model "
+            "(convolution_theorem) and the code-shaped demag_field (pad, fftn, products, ifftn, crop) is proved equal to the circular = linear "
+            "convolution (demag_field_fft_is_convolution); that scipy.fft implements the DFT contract of C11 is the trusted part",
+            "leaf functions: the lattice density is re-stated and proved with the REAL solid-angle formula (bl_real_invariances, "
+            "bl_real_quarter_turn; no hypothesis on Omega), the angle range with the real arccos (angle_range_real), the square-root "
+            "hypotheses are reduced to 'sq is a non-negative square root on the occurring norms' (tcd_scale_invariant_exact_sqrt); the "
+            "orientation field itself is rational-valued in the model (square root exact on rational squares, 1e-30 otherwise), an "
+            "orientation field over the reals is not modelled",
+            "sum rule / cube: proved through demag_field and the symbolic Newell tensor for rational leaf functions satisfying the arctangent "
+            "identity (demag_field_cuboid_sum, demag_field_cube_third); with the real leaves the trace is proved (demag_trace) but the "
+            "convolution model is rational-valued, so the real-leaf sum rule is the composition of the two on paper only"]
 BUDGET = {"quick": 85, "thorough": 900}
 
 TOL = 1e-9
